@@ -24,6 +24,8 @@ import (
 // suppressed => the response is emitted.
 
 var wireCodes = []codes.Code{codes.Content, codes.Changed, codes.Code(0x40) /*2.00*/, codes.Code(0x5f) /*2.31*/, codes.BadRequest, codes.NotFound, codes.Code(0x88) /*4.08*/, codes.Code(0x9d) /*4.29*/, codes.InternalServerError, codes.Code(0xa6) /*5.06*/, codes.Code(0xbf) /*5.31*/}
+// every request method: GET, POST, PUT, DELETE, FETCH, PATCH, iPATCH
+var wireMethods = []codes.Code{codes.GET, codes.POST, codes.PUT, codes.DELETE, codes.Code(5), codes.Code(6), codes.Code(7)}
 var wireValues = []uint32{0, 2, 8, 16, 10, 18, 24, 26, 1, 4, 32, 127}
 
 func wireScenario(transport string) *mcx.Scenario {
@@ -37,8 +39,9 @@ func wireScenario(transport string) *mcx.Scenario {
 				vi := vrt.Choose(len(wireValues), nil)
 				ci := vrt.Choose(len(wireCodes), nil)
 				con := vrt.Choose(2, nil) == 0
+				method := wireMethods[vrt.Choose(len(wireMethods), nil)]
 				value, code := wireValues[vi], wireCodes[ci]
-				desc = fmt.Sprintf("%s value=%d code=%d.%02d con=%v", transport, value, code>>5, code&31, con)
+				desc = fmt.Sprintf("%s method=0.%02d value=%d code=%d.%02d con=%v", transport, method, value, code>>5, code&31, con)
 				want := specSuppressed(uint8(code), value)
 				refused := false
 				handle := func(set func(codes.Code) error) {
@@ -57,7 +60,7 @@ func wireScenario(transport string) *mcx.Scenario {
 					if con {
 						typ = message.Confirmable
 					}
-					_ = w.Inject(message.Message{Type: typ, Code: codes.POST, MessageID: 4711, Token: message.Token{0x20}, Options: opts})
+					_ = w.Inject(message.Message{Type: typ, Code: method, MessageID: 4711, Token: message.Token{0x20}, Options: opts})
 					vrt.Quiesce("env: handled")
 					for _, o := range w.NewOuts() {
 						outs = append(outs, o.M)
@@ -77,7 +80,7 @@ func wireScenario(transport string) *mcx.Scenario {
 					w := tcpw.New(tcpw.Opts{QueueSize: 2, LimitTotal: 2, LimitEndpoint: 2, DisableCSM: true, Handler: func(rw *responsewriter.ResponseWriter[*tcpclient.Conn], r *pool.Message) {
 						handle(func(c codes.Code) error { return rw.SetResponse(c, message.TextPlain, nil) })
 					}})
-					w.Inject(message.Message{Code: codes.POST, Token: message.Token{0x20}, Options: opts})
+					w.Inject(message.Message{Code: method, Token: message.Token{0x20}, Options: opts})
 					vrt.Quiesce("env: handled")
 					outs = w.NewOuts()
 					if want && len(outs) != 0 {
@@ -109,7 +112,7 @@ func runWire(r *ev.Run) {
 	sum := mcx.Explore(r, scs, mcx.Config{Wall: 3 * time.Minute})
 	r.Set("wire_executions", sum.Execs)
 	r.Set("wire_distinct_cases", int64(len(sum.Outcomes)))
-	r.Set("wire_rule", "every combination of 12 No-Response values x 11 response codes (one per class plus codes absent from the library's lists: 2.00, 2.31, 4.08, 4.29, 5.06, 5.31) x CON|NON injected into a real udp/client.Conn and tcp/client.Conn whose handler calls SetResponse; oracle on the bytes the connection wrote")
+	r.Set("wire_rule", "every combination of 12 No-Response values x 11 response codes (one per class plus codes absent from the library's lists: 2.00, 2.31, 4.08, 4.29, 5.06, 5.31) x CON|NON x 7 request methods (0.01-0.07) injected into a real udp/client.Conn and tcp/client.Conn whose handler calls SetResponse; oracle on the bytes the connection wrote")
 	r.Add("evaluations", sum.Execs)
 	r.Sample(map[string]any{"part": "wire", "case": "udp value=26 code=4.08 con=true", "expected": "bare ACK only"})
 }
